@@ -609,7 +609,7 @@ void abtv_yield(const char *file, int line)
 }
 
 /* M-owner: a ULT context may be entered only if no sim thread currently owns it */
-#define OWN_N 8192
+#define OWN_N 2048
 static const void *own_ctx[OWN_N];
 static int own_thr[OWN_N];
 static int own_find(const void *c)
